@@ -1140,6 +1140,18 @@ class _EvalBuilder(_Builder):
                 return const_or_name(f[1][1][args[0][1]]) if args[0][1] in f[1][1] else args[1]
             except Exception:
                 return s
+        if f[0] == "a" and f[1][0] == "c" and isinstance(f[1][1], int) and not isinstance(f[1][1], bool) and all(a[0] == "c" for a in args) and all(v_[0] == "c" for _, v_ in kw):
+            # methods of a constant int: to_bytes / bit_length
+            if f[2] in ("to_bytes", "bit_length"):
+                try:
+                    return C(getattr(f[1][1], f[2])(*[a[1] for a in args], **{k_: v_[1] for k_, v_ in kw}))
+                except Exception:
+                    return s
+        if f[0] == "n" and f[1] in ("bytes", "bytearray") and not kw and len(args) == 1 and args[0][0] == "c" and isinstance(args[0][1], (tuple, bytes)):
+            try:
+                return C(bytes(args[0][1]))
+            except Exception:
+                return s
         if f[0] == "a" and f[1][0] == "c" and not kw and all(a[0] == "c" for a in args):
             recv = f[1][1]
             if isinstance(recv, str) and f[2] in ("upper", "lower", "strip", "lstrip", "rstrip", "replace", "startswith", "endswith", "split"):
